@@ -1,7 +1,6 @@
 package ledger
 
 import (
-	"errors"
 	"fmt"
 
 	"github.com/uptrace/bun"
@@ -52,7 +51,7 @@ func (h schemasResourceHandler) ResolveFilter(_ common.ResourceQuery[any], opera
 }
 
 func (h schemasResourceHandler) Expand(_ common.ResourceQuery[any], _ string) (*bun.SelectQuery, *common.JoinCondition, error) {
-	return nil, nil, errors.New("no expand supported")
+	return nil, nil, common.NewErrInvalidQuery("no expand supported")
 }
 
 var _ common.RepositoryHandler[any] = schemasResourceHandler{}
